@@ -28,8 +28,8 @@ ASSUMPTIONS = ["-o output is the observation point (stdout default is not judged
 
 
 def plan(tier):
-    return {"cases": 1000 if tier == "quick" else 3000, "shards": 16,
-            "shard_budget_s": 300 if tier == "quick" else 1800}
+    return {"cases": 1000 if tier == "quick" else 30000, "shards": 16,
+            "shard_budget_s": 300 if tier == "quick" else 3300}
 
 
 def required(tier):
